@@ -1136,6 +1136,14 @@ pub fn run_check(def: &CheckDef, tier: Tier, seed: u64, scale: f64) -> CheckResu
     let epath = format!("{}/evidence/{}.json", VERIF, def.property);
     if exit != 2 {
         std::fs::write(&epath, serde_json::to_vec_pretty(&evidence).unwrap()).expect("write evidence");
+        if tier == Tier::Thorough {
+            // quick runs rewrite the evidence file; keep what the deep exploration covered as well
+            let _ = std::fs::create_dir_all(format!("{}/evidence_thorough", VERIF));
+            let _ = std::fs::write(
+                format!("{}/evidence_thorough/{}.json", VERIF, def.property),
+                serde_json::to_vec_pretty(&evidence).unwrap(),
+            );
+        }
     }
 
     println!(
